@@ -16,6 +16,10 @@ def c01_oracle(case, a, before_label="0", after_label="final", rollback_index=No
     ri = rollback_index if rollback_index is not None else len(case.ops) - 1
     if case.ops[ri][0] != "rollback":
         return None
+    if any(o[0] == "forcebackup" for o in case.ops[:ri]):
+        # a ForceBackup re-baselines its path: "as before the first operation" is then not what
+        # Rollback has to produce (C17's and C08's ForceBackup streams judge those histories)
+        return None
     st = a["R"].get(ri)
     before = sorted(worldrun.strip_for_c01(l) for l in worldrun.region(a["S"].get(before_label, []), case.cfg, "base"))
     after = sorted(worldrun.strip_for_c01(l) for l in worldrun.region(a["S"].get(after_label, []), case.cfg, "base"))
